@@ -148,6 +148,8 @@ def handler_src(prog, part, m, in_trait):
     if m["kind"] in ("exec", "instantiate"):
         mutc += "        rec::touch_funds(ctx.deps.storage, &ctx.info.funds);\n"
     fin = (("rec::qresp_b" if ret == "QRespB" else "rec::qresp") if m["kind"] == "query" else "rec::resp") + '("%s", %d, %s)' % (m["name"], m["code"], ok)
+    if m["kind"] == "instantiate":      # (spawns a child contract when it is handed `zeta` coins: only on the multitest chains)
+        fin = 'rec::resp_spawning("%s", %d, %s, &ctx.info.funds)' % (m["name"], m["code"], ok)
     err = "HandlerErr" if part["id"] == "own" else "ContractError"   # interfaces share the contract's error type
     rty = ("QResultB<" + err + ">") if aliased else ("Result<%s, " % ret + err + ">")
     return ("    fn %s(&self, ctx: %s%s) -> " + rty.replace("%", "%%") + " {\n"
